@@ -24,10 +24,16 @@
 //!   ["ack"]                                  what RETI from a KEY interrupt does in CoreRuntime: clear ISR bit 2
 //!                                            and timer.key_irq_latched
 //!   ["iclr"]                                 firmware write clearing ISR bit 2 only
+//!
+//! A case with `"cpu": true` runs on a `CoreRuntime` instead (see run_cpu_case): press/release/scan/inject/consume
+//! act on `rt.keyboard`, and ["x", code_addr, [bytes], {regs}, {imem pre-writes}, [regs out], [imem out]] executes
+//! one generated instruction with `CoreRuntime::step(1)` -- strobe writes and KIL reads travel through the
+//! runtime's bus with whatever operand width / start offset / addressing form the Python side chose.
 use crate::util::{err, get_bool, get_u32};
 use sc62015_core::keyboard::KeyboardMatrix;
 use sc62015_core::memory::MemoryImage;
 use sc62015_core::timer::TimerContext;
+use sc62015_core::CoreRuntime;
 use serde_json::{json, Value};
 
 #[derive(Default)]
@@ -35,15 +41,10 @@ pub struct State {}
 
 const ISR: u32 = 0xFC;
 
-fn run_case(case: &Value) -> Value {
-    let cfg = case.get("cfg").cloned().unwrap_or(json!({}));
-    let mut kb = KeyboardMatrix::new();
-    let mut mem = MemoryImage::new();
-    let mti_period = get_u32(&cfg, "mti_period", 1) as i32;
-    let mut timer = TimerContext::new(true, mti_period, 0);
-    timer.set_keyboard_irq_enabled(get_bool(&cfg, "irq_enabled", true));
-
-    kb.set_columns_active_high(get_bool(&cfg, "active_high", true));
+/// Apply the generated configuration to a fresh matrix (crate setters; release threshold / repeat delay / repeat
+/// interval through snapshot_state -> load_snapshot_state, see module comment).
+fn configure(kb: &mut KeyboardMatrix, cfg: &Value) {
+    kb.set_columns_active_high(get_bool(cfg, "active_high", true));
     {
         let mut snap = kb.snapshot_state();
         if let Some(v) = cfg.get("release_threshold").and_then(|v| v.as_u64()) {
@@ -55,14 +56,25 @@ fn run_case(case: &Value) -> Value {
         if let Some(v) = cfg.get("repeat_interval").and_then(|v| v.as_u64()) {
             snap.repeat_interval = v as u8;
         }
-        snap.columns_active_high = get_bool(&cfg, "active_high", true);
+        snap.columns_active_high = get_bool(cfg, "active_high", true);
         kb.load_snapshot_state(&snap);
     }
     if let Some(v) = cfg.get("press_threshold").and_then(|v| v.as_u64()) {
         kb.set_press_threshold(v as u8);
     }
+    kb.set_repeat_enabled(get_bool(cfg, "repeat_enabled", true));
+}
+
+fn run_case(case: &Value) -> Value {
+    let cfg = case.get("cfg").cloned().unwrap_or(json!({}));
+    let mut kb = KeyboardMatrix::new();
+    let mut mem = MemoryImage::new();
+    let mti_period = get_u32(&cfg, "mti_period", 1) as i32;
+    let mut timer = TimerContext::new(true, mti_period, 0);
+    timer.set_keyboard_irq_enabled(get_bool(&cfg, "irq_enabled", true));
+
+    configure(&mut kb, &cfg);
     let repeat_enabled = get_bool(&cfg, "repeat_enabled", true);
-    kb.set_repeat_enabled(repeat_enabled);
 
     let snap = kb.snapshot_state();
     let init = json!({
@@ -170,6 +182,128 @@ fn run_case(case: &Value) -> Value {
     json!({"init": init, "obs": obs})
 }
 
+/// CPU flavour ("cpu": true in the case): the same keyboard inside a `CoreRuntime`; strobe writes and key-input
+/// reads are *instructions* executed by `CoreRuntime::step` (op "x"), so they travel through the runtime's bus
+/// (operand width, start offset and addressing form are chosen by the Python side).  The runtime keeps its
+/// default timer (disabled): an instruction performs no scan tick of its own, ticks are explicit `scan` ops on
+/// `rt.keyboard` or the tick the crate performs inside a KIL read.
+///   ["x", code_addr, [byte..], {reg: value..}, {imem_offset: value..}, [reg_name..], [imem_offset..]]
+///        pre-write IMEM bytes (pointer registers BP/PX/PY, scratch source bytes) with write_internal_byte,
+///        copy the code, set registers + PC, step(1); returns the named registers and IMEM bytes
+///        (read_internal_byte_silent) afterwards.
+fn run_cpu_case(case: &Value) -> Value {
+    let cfg = case.get("cfg").cloned().unwrap_or(json!({}));
+    let mut rt = CoreRuntime::new();
+    rt.timer.set_keyboard_irq_enabled(get_bool(&cfg, "irq_enabled", true));
+    let repeat_enabled = get_bool(&cfg, "repeat_enabled", true);
+    match rt.keyboard.as_mut() {
+        Some(kb) => configure(kb, &cfg),
+        None => return json!({"error": "CoreRuntime::new() has no keyboard"}),
+    }
+    let init = {
+        let kb = rt.keyboard.as_ref().unwrap();
+        let snap = kb.snapshot_state();
+        json!({
+            "kol": snap.kol, "koh": snap.koh,
+            "press_threshold": snap.press_threshold, "release_threshold": snap.release_threshold,
+            "repeat_delay": snap.repeat_delay, "repeat_interval": snap.repeat_interval,
+            "active_high": snap.columns_active_high, "capacity": snap.fifo.len(),
+            "repeat_enabled": repeat_enabled,
+            "fifo": kb.fifo_snapshot(), "isr": Value::Null, "irq_enabled": Value::Null,
+        })
+    };
+    let mut obs: Vec<Value> = Vec::new();
+    let empty: Vec<Value> = Vec::new();
+    let ops = case.get("ops").and_then(|v| v.as_array()).unwrap_or(&empty);
+    for op in ops {
+        let a = match op.as_array() {
+            Some(a) if !a.is_empty() => a,
+            _ => {
+                obs.push(json!({"error": "bad op"}));
+                continue;
+            }
+        };
+        let verb = a[0].as_str().unwrap_or("");
+        let arg = |i: usize| a.get(i).and_then(|v| v.as_u64()).unwrap_or(0);
+        let argb = |i: usize| a.get(i).map(|v| v.as_bool().unwrap_or(v.as_u64().unwrap_or(0) != 0)).unwrap_or(false);
+        let mut ret = json!(null);
+        match verb {
+            "press" => rt.keyboard.as_mut().unwrap().press_matrix_code(arg(1) as u8, &mut rt.memory),
+            "release" => rt.keyboard.as_mut().unwrap().release_matrix_code(arg(1) as u8, &mut rt.memory),
+            "scan" => {
+                let n = rt.keyboard.as_mut().unwrap().scan_tick(&mut rt.memory, true);
+                ret = json!({"n": n});
+            }
+            "inject" => {
+                let en = rt.timer.kb_irq_enabled;
+                let n = rt.keyboard.as_mut().unwrap().inject_matrix_event(arg(1) as u8, argb(2), &mut rt.memory, en);
+                ret = json!({"n": n});
+            }
+            "consume" => rt.keyboard.as_mut().unwrap().consume_pending_events(),
+            "x" => {
+                let code_addr = arg(1) as usize;
+                let code: Vec<u8> = a
+                    .get(2)
+                    .and_then(|v| v.as_array())
+                    .map(|l| l.iter().map(|b| b.as_u64().unwrap_or(0) as u8).collect())
+                    .unwrap_or_default();
+                if let Some(pre) = a.get(4).and_then(|v| v.as_object()) {
+                    for (off, val) in pre {
+                        if let Ok(o) = off.parse::<u32>() {
+                            rt.memory.write_internal_byte(o & 0xFF, val.as_u64().unwrap_or(0) as u8);
+                        }
+                    }
+                }
+                rt.memory.write_external_slice(code_addr, &code);
+                if let Some(regs) = a.get(3).and_then(|v| v.as_object()) {
+                    for (name, val) in regs {
+                        rt.set_reg(name, val.as_u64().unwrap_or(0) as u32);
+                    }
+                }
+                rt.set_reg("PC", code_addr as u32);
+                match rt.step(1) {
+                    Ok(()) => {
+                        let mut regs = serde_json::Map::new();
+                        if let Some(names) = a.get(5).and_then(|v| v.as_array()) {
+                            for n in names {
+                                if let Some(n) = n.as_str() {
+                                    regs.insert(n.to_string(), json!(rt.get_reg(n)));
+                                }
+                            }
+                        }
+                        let mut bytes: Vec<Value> = Vec::new();
+                        if let Some(offs) = a.get(6).and_then(|v| v.as_array()) {
+                            for o in offs {
+                                let o = o.as_u64().unwrap_or(0) as u32 & 0xFF;
+                                bytes.push(json!(rt.memory.read_internal_byte_silent(o).unwrap_or(0)));
+                            }
+                        }
+                        ret = json!({"regs": regs, "imem": bytes, "pc": rt.get_reg("PC"),
+                                     "len": code.len()});
+                    }
+                    Err(e) => {
+                        obs.push(json!({"error": format!("step failed: {e}")}));
+                        continue;
+                    }
+                }
+            }
+            _ => {
+                obs.push(json!({"error": format!("unknown cpu op {verb}")}));
+                continue;
+            }
+        }
+        let kb = rt.keyboard.as_ref().unwrap();
+        obs.push(json!({
+            "ret": ret,
+            "fifo": kb.fifo_snapshot(),
+            "isr": Value::Null,
+            "irq_enabled": rt.timer.keyboard_irq_enabled(),
+            "latched": rt.timer.key_irq_latched,
+        }));
+    }
+    json!({"init": init, "obs": obs})
+}
+
 pub fn handle(verb: &str, req: &Value, _st: &mut State) -> Value {
     match verb {
         "run" => {
@@ -177,7 +311,14 @@ pub fn handle(verb: &str, req: &Value, _st: &mut State) -> Value {
             let cases = req.get("cases").and_then(|v| v.as_array()).unwrap_or(&empty);
             let mut results: Vec<Value> = Vec::with_capacity(cases.len());
             for c in cases {
-                let r = std::panic::catch_unwind(std::panic::AssertUnwindSafe(|| run_case(c)));
+                let cpu = get_bool(c, "cpu", false);
+                let r = std::panic::catch_unwind(std::panic::AssertUnwindSafe(|| {
+                    if cpu {
+                        run_cpu_case(c)
+                    } else {
+                        run_case(c)
+                    }
+                }));
                 match r {
                     Ok(v) => results.push(v),
                     Err(e) => {
